@@ -14,7 +14,7 @@ LEVEL = "fault_enumeration"
 RULE = (
     "Parents from the structural generator (accepted by pyhf: control); every fault class of the statement injected at "
     "EVERY applicable position of each parent (exhaustive per parent), plus pairs of faults including compensating "
-    "pairs (histosys lengths +1/-1 across channels). A case = (parent, fault class, position); non-trivial when the "
+    "pairs (histosys/staterror data lengths and a sample's own length +1/-1 across channels). A case = (parent, fault class, position); non-trivial when the "
     "faulted spec is schema-valid and its parent is accepted; distinct by (fault class, position kind, parent shape)."
 )
 ASSUMPTIONS = [
@@ -179,6 +179,43 @@ def f_histosys_compensating(spec, rng):
     return out
 
 
+def f_sample_compensating(spec, rng):
+    """A sample one bin too long in one channel and one bin too short in another (its own bin-wise modifier data resized
+    with it): the sample's concatenated length over all channels is right, each channel is inconsistent with its other samples."""
+    out = []
+    places = {}
+    for ci, c, si, s in _cs(spec):
+        if len(c["samples"]) >= 2:
+            places.setdefault(s["name"], []).append((ci, si))
+
+    def resize(smp, delta):
+        lists = [smp["data"]]
+        for m in smp["modifiers"]:
+            if m["type"] == "histosys":
+                lists += [m["data"]["hi_data"], m["data"]["lo_data"]]
+            elif m["type"] in ("shapesys", "staterror"):
+                lists.append(m["data"])
+        for l in lists:
+            if delta > 0:
+                l.append(round(l[-1] * 1.1 + 0.5, 3))
+            else:
+                l.pop()
+
+    for name, pl in places.items():
+        for a in range(len(pl)):
+            for b in range(len(pl)):
+                if a == b:
+                    continue
+                (ci, si), (cj, sj) = pl[a], pl[b]
+                if len(spec["channels"][cj]["samples"][sj]["data"]) < 2:
+                    continue
+                s2 = copy.deepcopy(spec)
+                resize(s2["channels"][ci]["samples"][si], +1)
+                resize(s2["channels"][cj]["samples"][sj], -1)
+                out.append((f"sample {name}: one bin more in channel[{ci}] (sample[{si}]), one bin less in channel[{cj}] (sample[{sj}])", s2))
+    return out
+
+
 def f_binwise_shared_width(spec, rng):
     """A bin-wise modifier shared between places with different bin counts."""
     out = []
@@ -297,6 +334,7 @@ FAULTS = {
     "shapesys-data-length": _f_moddata_length("shapesys"),
     "staterror-data-length": _f_moddata_length("staterror"),
     "compensating-data-lengths": f_histosys_compensating,
+    "compensating-sample-lengths": f_sample_compensating,
     "binwise-shared-different-width": f_binwise_shared_width,
     "conflicting-constraint-types": f_conflicting_types,
     "override-wrong-length": f_override_length,
